@@ -8,7 +8,7 @@ use serde_json::{json, Value as J};
 
 pub static PROP: Prop = Prop {
     id: "C11",
-    rule: "cases: a well-formed program from the flat generator (all constructs; names are never operator words; strings contain blanks, tabs, newlines, operator and delimiter characters) is rendered three ways: canonical (one blank between tokens), `original` (each boundary empty where gluing is lexically safe, or a random string over {space, tab, CR, LF} of length 1-3) and `transformed` (every empty boundary gets a random whitespace string of length 0-3, every non-empty one is replaced by another non-empty string; leading/trailing whitespace added); whitespace runs of 10^3, 2*10^4 and 2*10^5 (thorough 2*10^6) characters at one boundary are parsed in dev and release child processes; additionally 1-2 complete subexpressions (token spans from the reference parser, any node kind except the statement list) are wrapped in 1-3 pairs of parentheses. Oracle (metamorphic): all accepted renderings parse to the same AST, string payloads byte-identical. Non-trivial: >= 5 tokens and the transformation touches >= 2 boundaries of different token-class pairs, or wraps a non-leaf node; distinct by (set of class pairs touched, wrapped node kinds).",
+    rule: "cases: a well-formed program from the flat generator (all constructs; names are never operator words; strings contain blanks, tabs, newlines, operator and delimiter characters) is rendered three ways: canonical (one blank between tokens), `original` (each boundary empty where gluing is lexically safe, or a random string over {space, tab, CR, LF} of length 1-3) and `transformed` (every empty boundary gets a random whitespace string of length 0-3, every non-empty one is replaced by another non-empty string; leading/trailing whitespace added); whitespace runs of 10^3, 2*10^4 and 2*10^5 (thorough 2*10^6) characters at one boundary are parsed in dev and release child processes; additionally 1-2 complete subexpressions (token spans from the reference parser, any node kind except the statement list) are wrapped in 1-3 pairs of parentheses. One case in 40 first parses a rejected program with groups left open (state must not carry over). Oracle (metamorphic): all accepted renderings parse to the same AST, string payloads byte-identical. Non-trivial: >= 5 tokens and the transformation touches >= 2 boundaries of different token-class pairs, or wraps a non-leaf node; distinct by (set of class pairs touched, wrapped node kinds).",
     assumptions: &[
         "token boundaries come from the generator; a boundary is left empty only if the reference tokenizer splits the glued text into exactly the generated tokens",
         "programs whose canonical rendering the engine rejects, or parses differently from the reference parser (then subexpression spans are unknown), are excluded and counted; C02 reports those",
@@ -91,6 +91,12 @@ fn compare(label: &str, text: &str, want: &str, canonical: &str) -> CaseResult {
 
 fn case(src: &mut Src, st: &mut Stats, _env: &Env) -> CaseResult {
     st.eval();
+    if src.pick(40) == 0 {
+        // an earlier, rejected input with groups left open must not influence later parses
+        let junk = format!("{}a + ", ["(", "[", "f(", "{1:"][src.pick(4)].repeat(1 + src.pick(12)));
+        let _ = parse_sexp(&junk);
+        st.hist("rejected-program-parsed-first");
+    }
     let tab = OpTable::builtin();
     let cfg = SynCfg::new(&tab);
     let (toks, omitted_semi) = gen_program_x(src, &cfg);
